@@ -29,6 +29,7 @@ def main(argv=None):
     from psim.world import World
     w = World()
     seams.install(w)
+    seams.set_debug_logging(bool(rp.get('debug_log')))
     res = plans.replay_fn(rp['profile'])(w, rp)
     prop = rp.get('property')
     exp = rp['expect']
